@@ -12,13 +12,17 @@ V(t, v) == [t |-> t, v |-> v]
 Arr(et, vs) == [t |-> "a", et |-> et, v |-> vs]
 Scalars ==
   IF Pool = "numbers" THEN { V("i", 0), V("i", 1), V("i", 2), V("i", 0 - 1), V("h", 0), V("h", 5), V("f", 0), V("f", 1), V("f", 2), V("d", 0), V("d", 5), V("c", 97), V("c", 98) }
+  ELSE IF Pool = "runs" THEN { V("i", 0), V("i", 1), V("i", 2), V("i", 3), V("i", 4), V("i", 5), V("i", 6), V("f", 0), V("f", 1), V("f", 2), V("f", 3), V("f", 4), V("f", 5), V("c", 97), V("c", 98), V("c", 99), V("c", 100), V("c", 101) }
   ELSE IF Pool = "texts" THEN { V("s", <<>>), V("s", <<97>>), V("s", <<97, 98>>), V("S", <<97>>), V("b", <<>>), V("b", <<1, 2>>), V("b", <<1, 2, 0>>),
                                 V("b", <<1, 3>>), V("m", <<1, 2, 3, 4>>), V("m", <<1, 2, 3, 5>>), V("t", 1), V("t", 0), V("t", 5), V("r", 7) }
   ELSE { V("T", 0), V("F", 0), V("N", 0), V("I", 0), V("i", 1), V("s", <<97>>),
          Arr("i", <<>>), Arr("i", <<V("i", 1)>>), Arr("i", <<V("i", 1), V("i", 2)>>), Arr("s", <<>>), Arr("s", <<V("s", <<97>>)>>),
          Arr("T", <<>>), Arr("T", <<V("T", 0)>>), Arr("T", <<V("T", 0), V("F", 0)>>), Arr("F", <<V("F", 0)>>), Arr("S", <<>>) }
 Init == list = <<>>
-Next == Len(list) < MaxLen /\ \E x \in Scalars : list' = Append(list, x)
+\* pool "runs": longer lists (constant stretches and steps of +1 from a few starting values), so that a list and its proper prefixes meet,
+\* the longer one stored in FEWER cells than the shorter one once its runs are compressed
+Continues(x) == IF Pool # "runs" THEN TRUE ELSE IF list = <<>> THEN x.v \in {0, 1, 97} ELSE x.t = list[1].t /\ (x.v = list[Len(list)].v \/ x.v = list[Len(list)].v + 1)
+Next == Len(list) < MaxLen /\ \E x \in Scalars : Continues(x) /\ list' = Append(list, x)
 \* the prescribed order is a strict weak order on every same-typed scalar set (reflexive, antisymmetric, transitive)
 Same(t) == { x \in Scalars : x.t = t }
 OrderLaws == \A t \in { x.t : x \in Scalars } \ {"a"} :
@@ -28,6 +32,7 @@ OrderLaws == \A t \in { x.t : x \in Scalars } \ {"a"} :
 ASSUME OrderLaws
 FormsLaw == \A f \in Forms(list) : Expand(f) = list
 Out == IF "OUT" \in DOMAIN IOEnv THEN IOEnv.OUT ELSE "none"
-SetToSeq(S) == CHOOSE f \in [1..Cardinality(S) -> S] : \A i, j \in 1..Cardinality(S) : i # j => f[i] # f[j]
+RECURSIVE SetToSeq(_)
+SetToSeq(S) == IF S = {} THEN <<>> ELSE LET x == CHOOSE y \in S : TRUE IN <<x>> \o SetToSeq(S \ {x})
 Emit == Out = "none" \/ CSVWrite("%1$s", <<ToJson([list |-> list, forms |-> SetToSeq(Forms(list))])>>, Out)
 =============================================================================
